@@ -384,6 +384,119 @@ fn oracle_c14(input: &[u8], log: &[String]) -> Option<String> {
     None
 }
 
+/// C06: the events a controller with schedule (`init`, `script`) would receive, selected from the
+/// log of a run under a schedule that requests at least as much at every tag event. Tag events
+/// (`hs`/`he`/`ax`) are always delivered; a token is delivered iff the flags in force (those returned
+/// at the latest tag event, or the initial ones) request its kind.
+fn project_for(log: &[String], init: u8, script: &[(u8, bool)]) -> Vec<String> {
+    let mut cur = init;
+    let mut k = 0usize;
+    let mut out = vec![];
+    for ev in log {
+        let kind = ev.split(':').next().unwrap_or("");
+        let keep = match kind {
+            "hs" | "he" => {
+                cur = if script.is_empty() { init } else { script[k % script.len()].0 };
+                k += 1;
+                true
+            }
+            "S" => cur & 4 != 0,
+            "T" => cur & 8 != 0,
+            "C" => cur & 2 != 0,
+            "D" => cur & 16 != 0,
+            "X" | "X?" => cur & 1 != 0,
+            _ => true,
+        };
+        if keep {
+            out.push(ev.clone());
+        }
+    }
+    out
+}
+
+/// does the input contain `=` whitespace* `>` (the `before_attribute_value_state` `>` arm)?
+fn has_attr_eq_gt(input: &[u8]) -> bool {
+    let mut i = 0;
+    while i < input.len() {
+        if input[i] == b'=' {
+            let mut j = i + 1;
+            while j < input.len() && matches!(input[j], b' ' | b'\n' | b'\r' | b'\t' | b'\x0C') {
+                j += 1;
+            }
+            if j < input.len() && input[j] == b'>' {
+                return true;
+            }
+        }
+        i += 1;
+    }
+    false
+}
+
+/// does the input end inside a tag (after the last `<` there is no `>`)?
+/// Does the input end inside a tag that never finishes? Decided by the full lexer itself (non-strict,
+/// every token captured, one write): the bytes after the last token it produced start an unfinished
+/// `<name` / `</name` (the last `<` of the input may well sit inside that tag's attribute value).
+fn in_unfinished_tag(input: &[u8]) -> bool {
+    let full = run_cfg(input, &[], false, 31, &[], true);
+    let mut last_end = 0usize;
+    for ev in &full.log {
+        // token events carry `<kind>:<start>-<end>:...`
+        if let Some(range) = ev.split(':').nth(1) {
+            if let Some((_, e)) = range.split_once('-') {
+                if let Ok(e) = e.parse::<usize>() {
+                    last_end = last_end.max(e);
+                }
+            }
+        }
+    }
+    let rest = &input[last_end.min(input.len())..];
+    rest.len() >= 2 && rest[0] == b'<' && (rest[1].is_ascii_alphabetic() || (rest[1] == b'/' && rest.len() >= 3 && rest[2].is_ascii_alphabetic()))
+}
+
+/// C06 oracle: schedule S against S ∪ O for observer sets O (extra flags at every tag event).
+fn oracle_c06(input: &[u8], cuts: &[usize], strict: bool, init: u8, script: &[(u8, bool)], r: &RunRes) -> Option<String> {
+    let all_ok = r.results.iter().all(|x| *x == "ok");
+    for o in [1u8, 2, 16, 12] {
+        if init & o == o && script.iter().all(|(f, _)| f & o == o) {
+            continue; // O adds nothing to this schedule
+        }
+        let script_o: Vec<(u8, bool)> = script.iter().map(|(f, i)| (f | o, *i)).collect();
+        let ro = run_cfg(input, cuts, strict, init | o, &script_o, true);
+        let ro_ok = ro.results.iter().all(|x| *x == "ok");
+        let proj = project_for(&ro.log, init, script);
+        // a tag whose name is complete but which never ends (`<div` EOF, or an error in between) is
+        // hinted by the tag scanner but never becomes a lexeme: one trailing hint is not an event of H's handlers
+        let same = proj == r.log
+            || (r.log.len() == proj.len() + 1
+                && r.log[..proj.len()] == proj[..]
+                && (r.log[proj.len()].starts_with("hs:") || r.log[proj.len()].starts_with("he:")));
+        if r.results.last() != ro.results.last() {
+            // the tag scanner consults the tree-builder simulator when the tag NAME is complete, the lexer
+            // when the TAG is complete: an unterminated tag at the end of the input is seen by one only
+            let unfinished = same && in_unfinished_tag(input);
+            return Some(format!(
+                "C06:{} with observer flags {o}: result {:?} without, {:?} with",
+                if unfinished { "result-differs-unfinished-tag" } else { "events-differ result" },
+                r.results.last(),
+                ro.results.last()
+            ));
+        }
+        if !same {
+            let i = proj.iter().zip(r.log.iter()).position(|(a, b)| a != b).unwrap_or(proj.len().min(r.log.len()));
+            return Some(format!(
+                "C06:events-differ shape={} with observer flags {o}: first difference at event {i} without={:?} with={:?}",
+                if has_attr_eq_gt(input) { "attr-eq-gt" } else { "other" },
+                r.log.get(i),
+                proj.get(i)
+            ));
+        }
+        if all_ok && ro_ok && r.out != ro.out {
+            return Some(format!("C06:output-differs with observer flags {o}"));
+        }
+    }
+    None
+}
+
 /// C09 (absolute bound, no handlers): what may be held back after a write.
 fn pending_allowed(p: &[u8]) -> bool {
     if p.is_empty() {
@@ -457,6 +570,10 @@ pub fn run(line: &str) -> String {
     // C14
     if let Some(msg) = oracle_c14(&input, &r.log) {
         oracle.push_str(&format!(" ||ORACLE:C14:{msg}"));
+    }
+    // C06: handler independence (H vs H ∪ O)
+    if let Some(msg) = oracle_c06(&input, &cuts, strict, init, &script, &r) {
+        oracle.push_str(&format!(" ||ORACLE:{msg}"));
     }
     // C09: schedule independence of bytes_out after each write + absolute bound without handlers
     if cuts.len() <= 8 {
